@@ -58,6 +58,10 @@ CLAIMS["C10"] = dict(
     text="Deductive proof against the nearest-neighbour specification NN(d) = floor(A(d+1/2)): _can_paste reports paste-ability only for no rotation/shear (>= 1e-10), integer scale within stol, both axes within stol of it and whole-pixel shift within ttol; with read_shrink == 1 and the ACTUAL unsnapped transform (scale exactly +-1, |residue| < ttol <= 1/4): d in roi_dst <=> NN(d) inside the source, NN(d) = the pixel at the same (mirrored) offset in roi_src, equal sizes -- i.e. the copy is the warp; with read_shrink = k in {2..5}: roi_src is roi_dst scaled by k.",
     note="GDAL's nearest resampling is ASSUMED to compute NN; near-integer scales k(1+delta) within stol are accepted by the code but excluded from the NN clause (drift delta*d exceeds half a pixel on images wider than 1/(2 delta)); pixel types (int8/bool detours in warp.py) are numpy/GDAL and not decided",
     technique=TECH, design_ref="DESIGN.md §2 C10")
+CLAIMS["C12"] = dict(
+    text="Deductive proof for pixel-space queries on regular tilings: GeoboxTiles.range_from_bbox returns index ranges that contain every tile whose pixel rectangle meets the box (ghost tile, all sizes), stay within the tiling, and are empty for a box strictly outside the raster; pix_bbox and GeoboxTiles[idx] are the tile's region / the parent cropped to it; Tiles/VariableSizedTiles.locate inverts region lookup (C04).",
+    note="geometry / CRS-carrying queries (pyproj projection + shapely predicates), itertools enumeration, and both grid_intersect paths are NOT proved: BOUNDED native checks against brute force over all tiles (504 queries on north-up/mirrored/rotated/sheared rasters, regular+variable tilings, same and other CRS) and all tile pairs (34 raster pairs incl. touching, disjoint and cross-CRS)",
+    technique=TECH, design_ref="DESIGN.md §2 C12")
 NA = {
     "C09": "xarray object-model behaviour (coords/attrs/encoding propagation); no contract within reach can state it - see DESIGN.md C09",
     "C13": "equality of GDAL warps (whole vs chunked) and dask scheduling; no contract within reach - see DESIGN.md C13",
